@@ -1,5 +1,8 @@
 """C20 - compiled kernels never touch memory outside their arguments (safety mode of every contract)."""
-from verif.units import CUnit
+import os
+import subprocess
+import sys
+from verif.units import CUnit, BoundedUnit
 import contracts  # noqa
 from verif.contract import CREG
 
@@ -10,7 +13,10 @@ TRUSTED = ["F2PY wrapper blocks pass arrays of exactly the declared shapes; the 
            "division by zero, shift, float-to-int range, uninitialised read, output definedness; float division by zero and sqrt/asin domain "
            "are NOT in this class (IEEE inf/nan are not rejected by the sanitizers)"]
 ASSUMPTIONS = ["image sizes within the stated bounds (ns*nf <= 2^28 for the labelling kernels, <= INT_MAX elsewhere)"]
-NOT_YET = ["connectedpixels.c:bloboverlaps", "sparse_image.c: mask_to_coo, compress_duplicates, sparse_connectedpixels, sparse_connectedpixels_splat, sparse_smooth, sparse_localmaxlabel", "localmaxlabel.c (2)", "darkflat.c (14)", "splat.c (1)", "cimaged11utils.c (2)"]
+NOT_YET = ["connectedpixels.c:bloboverlaps (a second disjoint-set layout)", "sparse_image.c:mask_to_coo and compress_duplicates (counting-sort prefix sums)",
+           "localmaxlabel.c:localmaxlabel (driver: hand-made thread split with unsynchronised reads, see the C13 finding)",
+           "darkflat.c:reorder_u16_a32_a16 (addresses are running sums of a table)", "sparse_image.c:tosparse_u16_avx512 (intrinsics, not compiled here)",
+           "cimaged11utils.c (wrappers of the OpenMP runtime and gettimeofday)"]
 EXPLANATION = ("every function listed under functions_under_contract is verified in safety mode: functional (tagged) clauses are neither assumed nor "
                "checked, so this verdict depends only on the structural contract. Kernels not yet under contract (NOT part of this claim): "
                + "; ".join(NOT_YET))
@@ -18,6 +24,33 @@ EXPLANATION = ("every function listed under functions_under_contract is verified
 SAFE_FILES = ("closest.c", "cdiffraction.c", "blobs.c", "connectedpixels.c", "sparse_image.c", "darkflat.c", "splat.c", "localmaxlabel.c")
 
 
+def asan_suite(ctx):
+    """bounded stand-in for the kernels outside engine A: boundary-shaped calls on exact-size heap buffers under ASan + UBSan"""
+    from verif import creplay, cfront
+    lib = creplay.build("asan")
+    nprop = cfront.load("blobs.c").enums["NPROPERTY"]
+    env = dict(os.environ)
+    env["LD_PRELOAD"] = creplay.LIBASAN
+    env["ASAN_OPTIONS"] = "detect_leaks=0:abort_on_error=0:exitcode=97:allocator_may_return_null=1"
+    env["UBSAN_OPTIONS"] = "halt_on_error=1:exitcode=98:print_stacktrace=0"
+    script = os.path.join(os.path.dirname(os.path.dirname(os.path.abspath(__file__))), "verif", "asan_suite.py")
+    p = subprocess.run([sys.executable, script, lib, str(ctx.seed), ctx.tier, str(nprop)], capture_output=True, text=True, timeout=1800, env=env)
+    calls = [l[5:] for l in p.stdout.splitlines() if l.startswith("CALL ")]
+    wrong = [l for l in p.stdout.splitlines() if l.startswith("WRONG ")]
+    done = any(l.startswith("SUITE-DONE") for l in p.stdout.splitlines())
+    fails = []
+    if not done:
+        rep = creplay.sanitizer_report(dict(stderr=p.stderr)) or ("runner exit %s: %s" % (p.returncode, p.stderr[-400:]))
+        fails.append(dict(name="sanitizer report in %s" % (calls[-1] if calls else "start-up"), call=calls[-1] if calls else None, report=rep))
+    for w in wrong:
+        fails.append(dict(name=w))
+    return dict(evaluations=len(calls), distinct_nontrivial=len(calls), failures=fails,
+                kernels=["mask_to_coo", "compress_duplicates", "localmaxlabel", "reorder_u16_a32_a16", "bloboverlaps"])
+
+
 def units(ctx):
     keys = [k for k, c in CREG.items() if c.file in SAFE_FILES]
-    return [CUnit(k, mode="safety") for k in sorted(keys)]
+    return [CUnit(k, mode="safety") for k in sorted(keys)] + \
+        [BoundedUnit("asan-ubsan-boundary-calls", asan_suite,
+                     "5 kernels outside engine A x boundary shapes (1x1 .. 17x4, thorough up to 64x48), empty / full / single-pixel / random fills, "
+                     "1 and 4 threads, exact-size heap buffers, gcc ASan + UBSan + float-cast-overflow")]
